@@ -25,8 +25,8 @@ def encoded_functions():
             HostConnection.on_orphaned_stream_released, Connection.process_msg, ResponseFuture._on_timeout]
 
 
-def h_history(V, steps=5, nreq=3):
-    return poolhist.run_history(V, 'C13', steps=steps, nreq=nreq)
+def h_history(V, steps=5, nreq=3, race=None):
+    return poolhist.run_history(V, 'C13', steps=steps, nreq=nreq, race=race)
 
 
 def h_replace_step(V):
@@ -66,4 +66,9 @@ def jobs(tier):
         for thr in range(2):
             js.append(Job('history-c%d-t%d' % (cap, thr), 'h_history', dict(steps=steps, nreq=4 if th else 3),
                           dict(o, pin={'max_in_flight': cap, 'orphan_threshold': thr})))
+    # one pre-emption: the late response is delivered while _on_timeout is between popping the request and
+    # recording the stream as orphaned (before it takes the connection lock)
+    for cap in range(2):
+        js.append(Job('timeout-response-race-c%d' % cap, 'h_history', dict(steps=steps + 2, nreq=3, race='timeout-response'),
+                      dict(o, pin={'max_in_flight': cap, 'orphan_threshold': 0})))
     return js
